@@ -5,7 +5,7 @@ CONSTANT NPairs = 5
 CONSTANT MaxOps = 6
 CONSTANT Full = TRUE
 CONSTANT EmitOneIn = 1
-CONSTANT Kinds = {"visit", "cached"}
+CONSTANT Kinds = {"visit", "cached", "insert"}
 INVARIANT TableOK
 INVARIANT SlotsCorrect
 INVARIANT CacheShape
